@@ -61,6 +61,21 @@ def nested(decl):
                    "fields": [{"k": "Ref", "name": "s", "cls": "C1", "over": [{"n": "dsc", "v": {"t": "int", "i": 9}}], "mv": NOMV}]}}
 
 
+def withlen(decl):
+    """the same class with a user's __len__ (the number of tracked bytes / elements): an instance whose tracked field is empty
+    is FALSY, like an empty container - it is still an instance"""
+    return {"C0": dict(decl["C0"], methods=["def __len__(self):", "    return len(self.trk or b'')"])}
+
+
+def twins(decl):
+    """TWO references to the class in one outer packet; the harness does everything to both nested packets alike, so they are
+    distinct objects that always compare equal: each is serialised as what ITS attribute reads"""
+    return {"C1": decl["C0"],
+            "C0": {"opts": decl["C0"]["opts"],
+                   "fields": [{"k": "Ref", "name": "s", "cls": "C1", "over": [{"n": "dsc", "v": {"t": "int", "i": 9}}], "mv": NOMV},
+                              {"k": "Ref", "name": "u", "cls": "C1", "over": [{"n": "dsc", "v": {"t": "int", "i": 9}}], "mv": NOMV}]}}
+
+
 def tval(kind, t):
     if list(t) == [-1]:
         return None           # the specification's BAD: a value the descriptor's function cannot work on
@@ -79,13 +94,60 @@ def read_attr(p):
 
 
 class Live:
-    def __init__(self, cls, kind, lead=False, outer=None):
+    def __init__(self, cls, kind, lead=False, outer=None, twin=False):
         self.cls, self.kind, self.lead = cls, kind, lead        # lead: the class starts with the extra described field x
         self.outer = outer          # the packet under test is the field `s` of an instance of this class
         self.p = cls()
         self.o = outer(s=self.p) if outer else None
+        self.twin = twin
 
     def do(self, op, arg):
+        if not self.twin:
+            return self.do1(op, arg)
+        return self.do2(op, arg)
+
+    def do2(self, op, arg):
+        """two nested packets of one outer packet, treated alike"""
+        from bisturi.packet import PacketError
+        ok, out = True, []
+        if not hasattr(self, "q"):
+            self.q = self.cls()
+            self.o = self.outer(s=self.p, u=self.q)
+        if op == "new":
+            self.p = self.cls() if arg[0] == -1 else self.cls(dsc=arg[0])
+            self.q = self.cls() if arg[0] == -1 else self.cls(dsc=arg[0])
+            self.o = self.outer(s=self.p, u=self.q)
+        elif op == "set_tracked":
+            self.p.trk = tval(self.kind, arg)
+            self.q.trk = tval(self.kind, arg)
+        elif op == "set_described":
+            self.p.dsc = arg[0]
+            self.q.dsc = arg[0]
+        elif op == "del_described":
+            del self.p.dsc
+            del self.q.dsc
+        elif op == "unpack":
+            try:
+                self.o = self.outer.unpack(bytes(arg) + bytes(arg))
+                self.p, self.q = self.o.s, self.o.u
+            except PacketError:
+                ok = False
+        elif op == "pack":
+            try:
+                both = list(self.o.pack())
+                half = len(both) // 2
+                out = both[:half]
+                if both[half:] != out:
+                    out = ["the second of two equal nested packets was serialised as %r, the first as %r" % (both[half:], out)]
+            except PacketError:
+                ok = False
+        r2 = read_attr(self.q)
+        r1 = read_attr(self.p)
+        return {"op": op, "arg": list(arg), "ok": ok, "out": out, "hasdict": hasattr(self.p, "__dict__") or hasattr(self.q, "__dict__"),
+                "obs": {"read": r1 if r1 == r2 else ["the two nested packets read differently", r1, r2],
+                        "hidden": getattr(self.q, "_described_dsc", None), "tracked": tabs(self.kind, self.q.trk)}}
+
+    def do1(self, op, arg):
         from bisturi.packet import PacketError
         ok, out = True, []
         if op == "new":
@@ -134,13 +196,17 @@ def _wrun(chunk):
     n = 0
     for c in chunk:
         for gen, emb in ((rp.GEN_OFF, False), (None, False), (rp.GEN_OFF, True), (None, True), (rp.GEN_OFF, "two"), (None, "two"),
-                         (rp.GEN_OFF, "nested"), (None, "nested"), (GEN_SHARED, "nested"), (GEN_SHARED, True)):
+                         (rp.GEN_OFF, "nested"), (None, "nested"), (GEN_SHARED, "nested"), (GEN_SHARED, True),
+                         (rp.GEN_OFF, "withlen"), (None, "withlen"), (rp.GEN_OFF, "twins"), (None, "twins")):
             decl = DECLS[c["kind"]]
             if emb == "nested":
                 mod = _W["sc"].load(nested(decl), gen)
                 live = Live(mod.C1, c["kind"], outer=mod.C0)
+            elif emb == "twins":
+                mod = _W["sc"].load(twins(decl), gen)
+                live = Live(mod.C1, c["kind"], outer=mod.C0, twin=True)
             else:
-                cls = _W["sc"].load(two(decl) if emb == "two" else embedded(decl) if emb else decl, gen).C0
+                cls = _W["sc"].load(two(decl) if emb == "two" else withlen(decl) if emb == "withlen" else embedded(decl) if emb else decl, gen).C0
                 live = Live(cls, c["kind"], lead=(emb == "two"))
             n += 1
             for i, e in enumerate(c["hist"]):
